@@ -11,6 +11,7 @@ From FT Require Import Base.Dict Model.Edit Model.EditExec Proofs.EditInv Proofs
 From FT Require Proofs.EditSwap.
 From FT Require Proofs.EditNodeBasic Proofs.EditBook Proofs.EditUDN Proofs.EditUAN Proofs.EditWFEdge.
 From FT Require Gen.History_gen Proofs.HistoryGen Props.C02.
+From FT Require Proofs.EditWFPaint.
 Import ListNotations.
 Open Scope Z_scope.
 
@@ -97,6 +98,15 @@ Theorem C11_history_is_generated : forall st a dA,
    end).
 Proof. exact FT.Props.C02.C02_edit_machine_uses_generated. Qed.
 
+(* ---- paint strokes: a refused stroke returns a state equal to the original up to the order inside one
+        track-lookup entry (and the caller has restored the painted pixels: C07_paint_error_restores), for
+        every refusal except the rolled-back one (non-forced stroke with a new label that overwrites a foreign
+        node and is then refused by the nested UserAddNode; decided by the correspondence and the oracle) ---- *)
+Theorem C11_paint_partial : forall st nv t idx T force e st',
+  WF st -> EditBook.rp_disjoint st -> EditWFPaint.paint_no_rollback st nv t idx force ->
+  paint st nv t idx T force = Err e st' -> EditUAN.untouched st st' /\ WF st'.
+Proof. exact EditWFPaint.paint_refused_WF_partial. Qed.
+
 Example C11_nonvacuous :
   fst (step fx (OAddEdge 1 6 true)) = fx /\ fst (snd (step fx (OAddEdge 1 6 true))) = 10 /\
   fst (step fx (OAddEdge 1 5 true)) = fx /\ fst (snd (step fx (OAddEdge 1 5 true))) = 10 /\
@@ -115,3 +125,4 @@ Print Assumptions C11_add_node.
 Print Assumptions C11_add_node_refusals.
 Print Assumptions C11_edge_calls.
 Print Assumptions C11_history_is_generated.
+Print Assumptions C11_paint_partial.
